@@ -101,14 +101,16 @@ func DeBlobProgramCode(data []byte) (_ Program, _ ExitReason) {
 	}
 	data = data[dataUsed:]
 
-	if jumpTableLength*jumpTableSize >= 1<<32 {
-		pvmLogger.Errorf("jump table size %d bits exceed litmit of 32 bits", jumpTableLength*jumpTableSize)
+	// E_z(j) = jumpTableSize * jumpTableLength = E_(|j|) * E_1(z); the product must not wrap,
+	// or the declared shape (|j|, z) and the table data that is read disagree
+	jumpTableBytes, overflow := checkOverflow(jumpTableLength, jumpTableSize)
+	if overflow || jumpTableBytes >= 1<<32 {
+		pvmLogger.Errorf("jump table size %d x %d exceeds the limit of 32 bits", jumpTableSize, jumpTableLength)
 		return Program{}, ExitPanic
 		// panic("the jump table's size is supposed to be at most 32 bits")
 	}
 
-	// E_z(j) = jumpTableSize * jumpTableLength = E_(|j|) * E_1(z)
-	jumpTableData, data, err := ReadBytes(data, jumpTableLength*jumpTableSize)
+	jumpTableData, data, err := ReadBytes(data, jumpTableBytes)
 	if err != nil {
 		pvmLogger.Errorf("jumpTableData ReadBytes error: %v", err)
 		return Program{}, ExitPanic
